@@ -881,6 +881,27 @@ func (e *c14Engine) send(q c14Req) c15Resp {
 		}
 	}
 	e.hist = append(e.hist, q)
+	if r.Status == 200 && q.Method == "POST" && kind == "solutions" {
+		// silent acceptance: an accepted summary must not contain an Actions cell the scenario's compressor rejects
+		if d := e.currentDesc(); d != nil {
+			if view, _ := abs["csv"].(J); view != nil && view["k"] == "ok" {
+				for _, row := range view["rows"].([][]J) {
+					if len(row) < 2 {
+						continue
+					}
+					c := row[len(row)-2]
+					text, _ := c["txt"].(string)
+					if c["t"] == "s" {
+						text, _ = c["v"].(string)
+					}
+					if archive.New(len(d.actions)).Decode(text) != nil {
+						w.oracleLine("undecodable-encoding-accepted", q, r, abs, "POST /solutions answered 200 although the Actions cell ["+text+"] does not decode into the "+strconv.Itoa(len(d.actions))+" management actions of the scenario")
+						break
+					}
+				}
+			}
+		}
+	}
 	if r.Status == 200 && q.Method == "POST" && (kind == "scenario" || kind == "solutions") {
 		got := raw[c14Api+"/"+kind]
 		if got.Status != 200 || got.Body != q.Body {
@@ -1182,6 +1203,9 @@ func (g *c14Gen) summaryTable(d *c14Desc, wellFormed bool) string {
 			f := strings.Split(l, ", ")
 			if d != nil && p.chance(0.7) {
 				f[7] = c14Encoding(g.randomBits(d))
+			}
+			if !wellFormed && p.chance(0.12) { // passes the hex pattern, does not decode
+				f[7] = g.pick([]string{"1:2", "10000000000000000", ":", "", "0:", "FFFFFFFFFFFFFFFFF", "1::2"})
 			}
 			if p.chance(0.2) {
 				f[8] = g.pick([]string{"100% %s", "\"quoted, summary\"", "plain", "Grüße"})
